@@ -67,6 +67,12 @@ var c12Allow = []allowEntry{
 }
 
 func runC12(p *Prog, r *Report) {
+	nilSafe(p, r, "C12.18/nil-safe", "an endpoint that was never started, failed to start or was closed has optional fields unset: Close before Listen, a retry after a failed bind or an option on a fresh object must not crash", func(fn *ssa.Function) bool {
+		rel, _ := p.FuncRel(fn)
+		return rel != "macat"
+	})
+	r.Floor("C12.18/nil-safe", "e12a.map_writes.C12.18/nil-safe", 15)
+	r.Floor("C12.18/nil-safe", "e12b.uses.C12.18/nil-safe", 20)
 	dialStoresNoOptionState(p, r, "C12.17/dial-reads-options-at-use")
 	r.Floor("C12.17/dial-reads-options-at-use", "transport_dials.C12.17/dial-reads-options-at-use", 4)
 	closerLeaks(p, r, "C12.16/closer-leak", func(rel string) bool { return strings.HasPrefix(rel, "transport") || rel == "internal/core" || rel == "macat" })
